@@ -101,8 +101,17 @@ def close(a, b, rtol=1e-9):
         return False
     if a.shape != b.shape:
         return False
-    scale = max(1.0, float(np.max(np.abs(b))) if b.size else 1.0)
-    return bool(np.allclose(a, b, rtol=rtol, atol=rtol * scale, equal_nan=False))
+    if not b.size:
+        return True
+    if not (np.all(np.isfinite(a)) and np.all(np.isfinite(b))):
+        return False
+    # tolerance relative to the SPREAD of the values (not their offset: a series at 1.7e9 with 60 s spacing must be
+    # compared to a fraction of 60 s), with a floor of a few hundred ulp of the largest magnitude for the rounding
+    # that x + shift / x * scale legitimately incur there
+    spread = float(np.max(b) - np.min(b))
+    mag = float(np.max(np.abs(b)))
+    atol = max(rtol * spread, 512 * np.finfo(float).eps * mag, 1e-300)
+    return bool(np.all(np.abs(a - b) <= atol + rtol * 0.0))
 
 
 def brief(v, n=6):
@@ -186,6 +195,8 @@ class Machine:
     def build_initial(self):
         st = self.st
         n = st.draw(4, 40, "n")
+        # magnitude regime: mostly moderate; sometimes Unix-timestamp abscissae, nanosecond spacing, or a large y level
+        self.regime = ("moderate", "timestamp", "nano", "level")[st.weighted((10, 1, 1, 1), "regime")]
         xk = st.weighted((3, 2, 3, 2), "x-pattern")     # uniform int, uniform fractional, lattice, generic
         start = st.draw(-30, 30, "x0")
         if xk == 0:
@@ -217,14 +228,25 @@ class Machine:
                 ys.append(st.draw(-5000, 5000, "y") / 97.0)
         if all(v == ys[0] for v in ys) and not st.coin(1, 8, "keep-constant"):
             ys[-1] = ys[0] + 1.0
+        if self.regime == "timestamp":
+            dx = st.pick((60.0, 1.0, 3600.0, 0.5), "ts-step")
+            xs = [1.7e9 + (v - xs[0]) * dx for v in xs]
+        elif self.regime == "nano":
+            dx = st.pick((1e-9, 2.5e-10, 1e-7), "nano-step")
+            xs = [0.25 + (v - xs[0]) * dx for v in xs]
+        elif self.regime == "level":
+            ys = [1e6 + v / 16.0 for v in ys]
         x_form = st.weighted((2, 2, 2, 3), "x-form")     # None, list, int array, float array
+        if self.regime in ("timestamp", "nano") and x_form == 0:
+            x_form = 3
         integral_x = all(float(v).is_integer() for v in xs)
         y_form = st.weighted((2, 2, 3), "y-form")        # list, int array (if integral), float array
         ctor = st.weighted((5, 2, 1, 1), "ctor")         # Weaver, from_2d_array, from_dataframe, from_csv
         if x_form == 0:
             xs = list(range(n))
         model = WeaverModel(xs, ys)
-        desc = {"n": n, "x": xs if n <= 12 else xs[:12] + ["..."], "y": ys if n <= 12 else ys[:12] + ["..."]}
+        desc = {"n": n, "regime": self.regime, "x": xs if n <= 12 else xs[:12] + ["..."],
+                "y": ys if n <= 12 else ys[:12] + ["..."]}
         if ctor == 1:
             xy = np.column_stack((np.array(xs, dtype=float), np.array(ys, dtype=float)))
             self.remember(xy, "xy passed to from_2d_array")
@@ -281,8 +303,66 @@ class Machine:
         x, y = self.wv.get_reference()
         return np.asarray(x, dtype=float), np.asarray(y, dtype=float)
 
+    # ------------------------------------------------------------ representability
+    @staticmethod
+    def resolvable(magnitude, spacing, margin=1e4):
+        """Can a grid with this smallest spacing live at this magnitude in float64 with room to spare?  An operation
+        whose exact result would need spacing below ~1e4 ulp of the magnitude is outside what any implementation can
+        do (x + 6 cannot keep 1e-17 spacing); such operations are not issued."""
+        return spacing > margin * np.finfo(float).eps * max(abs(magnitude), 1e-300)
+
+    def x_ok_after(self, op, a):
+        x, _ = self.cur()
+        rx, _ = self.ref()
+        for arr in (x, rx):
+            if len(arr) < 2:
+                continue
+            sp = float(np.min(np.diff(arr)))
+            mag = float(np.max(np.abs(arr)))
+            span = float(arr[-1] - arr[0])
+            if op == "shift_x":
+                ok = self.resolvable(mag + abs(a["shift"]), sp)
+            elif op == "scale_x":
+                ok = self.resolvable(mag * abs(a["scale"]), sp * abs(a["scale"])) and mag * abs(a["scale"]) < 1e15
+            elif op == "normalize_x":
+                ok = self.resolvable(max(abs(a["lo"]), abs(a["hi"])), sp / span * (a["hi"] - a["lo"]))
+            elif op == "repeat":
+                ok = self.resolvable(mag + a["n"] * (span + sp), sp)
+            elif op == "recreate_from_average":
+                ok = self.resolvable(mag, sp / a["n"])
+            elif op == "interpolate":
+                if "n" in a:
+                    ok = self.resolvable(mag, span / max(1, a["n"] - 1))
+                else:
+                    g = np.asarray(a["new_x"], dtype=float)
+                    ok = len(g) < 2 or self.resolvable(mag, float(np.min(np.diff(g))))
+            elif op == "append_one_sample":
+                ok = self.resolvable(mag + span, sp)
+            else:
+                ok = True
+            if not ok:
+                self.count("skipped-unrepresentable-spacing")
+                return False
+        return True
+
+    def y_ok_after(self, op, a):
+        _, y = self.cur()
+        mag = float(np.max(np.abs(y))) if len(y) else 0.0
+        if op == "shift_y":
+            return mag + abs(a["shift"]) < 1e12
+        if op == "scale_y":
+            return mag * abs(a["scale"]) < 1e12
+        return True
+
     # ------------------------------------------------------------ operation generators
     def gen_domain(self, allow_index_truncate=True):
+        for _ in range(8):
+            g = self._gen_domain(allow_index_truncate)
+            if self.x_ok_after(*g) and self.y_ok_after(*g):
+                return g
+        return "shift_y", {"shift": 1.0}
+
+    def _gen_domain(self, allow_index_truncate=True):
         st = self.st
         x, y = self.cur()
         rx, ry = self.ref()
@@ -294,11 +374,14 @@ class Machine:
                 if n + 1 > MAX_LEN:
                     continue
                 return op, {"periodic": st.coin(1, 2, "periodic")}
+            big = self.regime != "moderate" and st.coin(1, 4, "extreme-arg")
             if op in ("shift_x", "shift_y"):
-                return op, {"shift": self.num("shift"), "form_num": st.weighted((3, 2, 1, 1), "num-form")}
+                sh = st.pick((1.7e9, -1.7e9, 1e6, 86400.0), "big-shift") if big else self.num("shift")
+                return op, {"shift": sh, "form_num": st.weighted((3, 2, 1, 1), "num-form")}
             if op == "scale_x":
-                return op, {"scale": st.pick((2.0, 0.5, 4.0, 0.25, 1.5, 3.0, 0.75, 1.7, 0.3), "scale"),
-                            "form_num": st.weighted((3, 2, 1, 1), "num-form")}
+                sc = st.pick((1e-9, 60.0, 1e3, 1e-3, 1e9), "big-scale") if big else \
+                    st.pick((2.0, 0.5, 4.0, 0.25, 1.5, 3.0, 0.75, 1.7, 0.3), "scale")
+                return op, {"scale": sc, "form_num": st.weighted((3, 2, 1, 1), "num-form")}
             if op == "scale_y":
                 return op, {"scale": st.pick((2.0, 0.5, -1.0, 4.0, 0.25, -2.0, 1.5, -0.3, 1.7), "scale"),
                             "form_num": st.weighted((3, 2, 1, 1), "num-form")}
@@ -370,12 +453,24 @@ class Machine:
         return bool(np.all(np.diff(idx) >= 2))
 
     def gen_recreate(self):
+        g = self._gen_recreate()
+        if g is not None and not self.x_ok_after(*g):
+            return None
+        return g
+
+    def _gen_recreate(self):
         st = self.st
         x, _ = self.cur()
         n = st.draw(2, 8, "oversample")
         if (len(x) - 1) * n + 1 > MAX_LEN or len(x) < 2:
             return None
         s = st.pick(STRATEGIES, "strategy")
+        if getattr(self, "regime", "moderate") != "moderate" and s == "CubicSplineRFA" and st.coin(1, 2, "avoid-cubic"):
+            s = "LinearFixedRFA"
+        if getattr(self, "regime", "moderate") == "nano":
+            n = st.pick((n, 50, 20), "n-nano")
+            if (len(x) - 1) * n + 1 > MAX_LEN:
+                return None
         a = {"n": n, "strategy": s}
         if s in ("LinearFixedRFA", "LinearAdaptiveRFA", "ExpFixedRFA", "ExpAdaptiveRFA") and st.coin(2, 3, "params"):
             if st.coin(1, 3, "explicit-a"):
@@ -415,6 +510,8 @@ class Machine:
         if len(x) < 4:
             return None
         m = st.pick(METHODS, "method")
+        if getattr(self, "regime", "moderate") != "moderate":
+            m = st.pick(("linear", "constant"), "method-extreme")
         if st.coin(1, 2, "by-n"):
             n = st.draw(2, min(3 * len(x), 400), "n")
             if n < 4 and True:
@@ -428,9 +525,19 @@ class Machine:
         return "interpolate", {"new_x": grid, "form": ("list", "tuple", "array")[form], "method": m}
 
     def gen_reshape(self, allow_match=True):
+        for _ in range(4):
+            g = self._gen_reshape(allow_match)
+            if g is None or self.x_ok_after(*g):
+                return g
+        return None
+
+    def _gen_reshape(self, allow_match=True):
         st = self.st
+        extreme = getattr(self, "regime", "moderate") != "moderate"
         for _ in range(5):
             k = st.weighted((4, 3, 3, 2, 2, 2), "reshape-op")
+            if extreme and k == 3:
+                k = 0          # smoothing splines are ill-conditioned at 1e9 offsets / 1e-9 spacing: not judged there
             if k == 0:
                 g = self.gen_recreate()
             elif k == 1:
@@ -687,11 +794,14 @@ class Machine:
         x, y = self.cur()
         got = self.integral(x, y, target)
         key = f"op=integral_match:{g[1]['strategy']}:{target}"
+        # conditioning: abscissae of magnitude M with spacing d carry a relative error eps*M/d in every width and in the
+        # stretch weights, which are computed from differences of x (at 1.7e9 with 0.03 spacing that is 1e-5)
+        cond = float(np.finfo(float).eps * np.max(np.abs(x)) / np.min(np.diff(x)))
         for i in range(len(rx) - 1):
             want = ry[i] * (rx[i + 1] - rx[i])
             have = got[i * n:(i + 1) * n].sum()
-            scale = max(1.0, abs(want), float(np.max(np.abs(ry))) * abs(rx[i + 1] - rx[i]))
-            if not abs(have - want) <= 1e-8 * scale:
+            scale = max(abs(want), float(np.max(np.abs(ry))) * abs(rx[i + 1] - rx[i]), 1e-300)
+            if not abs(have - want) <= (1e-8 + 64 * cond) * scale:
                 self.fail("R4/averages-not-reproduced", key,
                           f"after the domain history, recreate({g[1]['strategy']}, n={n}) + integral_match({target}) gives "
                           f"integral {have:.12g} over reference interval {i} [{rx[i]:g}, {rx[i + 1]:g}], expected "
@@ -742,7 +852,8 @@ class Machine:
             self.fail("pipeline-raised", f"op=recreate_from_average:{s}", f"recreate+match then maps raised {type(e).__name__}: {e}")
         ax, ay = self.cur()
         bx, by = (np.asarray(v, dtype=float) for v in other.get())
-        if not (close(ax, bx, 1e-7) and close(ay, by, 1e-7)):
+        cond = max(float(np.finfo(float).eps * np.max(np.abs(v)) / np.min(np.diff(v))) for v in (ax, bx) if len(v) > 1)
+        if not (close(ax, bx, 1e-7) and close(ay, by, 1e-7 + 64 * cond)):
             bad = int(np.argmax(np.abs(ay - by))) if ay.shape == by.shape else -1
             self.fail("R5/maps-do-not-commute-with-pipeline", f"op=recreate_from_average:{s}",
                       f"{[fmt_op(*o) for o in ops]} before recreate({s})+match({target}) gives y {brief(ay)}, after it gives "
@@ -790,15 +901,25 @@ class Machine:
                 d["call"] = lambda wv: wv.interpolate(new_x=g, method=mth)
                 d["text"] = f"interpolate(new_x=linspace, method={mth!r})"
         elif c == "interpolate-grid-endpoints":
-            which = st.draw(0, 2, "which-end")
+            which = st.draw(0, 5, "which-end")
             g = np.linspace(x[0], x[-1], n + 2)
             if which in (0, 2):
                 g[0] = g[0] + st.pick((-1.0, 0.001, (g[1] - g[0]) / 2))
             if which in (1, 2):
                 g[-1] = g[-1] + st.pick((1.0, -0.001, -(g[-1] - g[-2]) / 2))
+            if which == 3:
+                g = g[::-1].copy()                               # covers the range, but starts at the wrong end
+            if which == 4:
+                g = np.append(g, (g[0] + g[-1]) / 2)            # last element is an interior point
+            if which == 5:
+                g = np.insert(g, 0, (g[0] + g[-1]) / 2)         # first element is an interior point
             mth = st.pick(METHODS, "method")
-            d["call"] = lambda wv: wv.interpolate(new_x=g, method=mth)
-            d["text"] = f"interpolate(new_x with {'first' if which == 0 else 'last' if which == 1 else 'both'} end point(s) moved, {mth!r})"
+            form = st.pick(("array", "list", "tuple"), "grid-form")
+            obj = g if form == "array" else (list(g) if form == "list" else tuple(g))
+            d["call"] = lambda wv: wv.interpolate(new_x=obj, method=mth)
+            what = ("first end point moved", "last end point moved", "both end points moved", "descending grid",
+                    "interior point appended after the last", "interior point inserted before the first")[which]
+            d["text"] = f"interpolate(new_x ({form}): {what}, {mth!r})"
         elif c == "interpolate-neither":
             d["call"] = lambda wv: wv.interpolate()
             d["text"] = "interpolate() without n and new_x"
@@ -1233,7 +1354,7 @@ class Engine:
         if self.PROPERTY == "C08":
             depth = 2 if tier == "quick" else 3
             units += [{"gen": "exhaustive-prefix", "first": i, "depth": depth} for i in range(len(ALPHABET))]
-        n = {"C08": (60000, 1500000), "C09": (60000, 1500000), "C20": (60000, 1500000)}[self.PROPERTY]
+        n = {"C08": (60000, 1500000), "C09": (50000, 1200000), "C20": (40000, 800000)}[self.PROPERTY]
         import os
         count = int(os.environ.get("VERIF_HISTORIES", "0")) or (n[0] if tier == "quick" else n[1])
         units += [{"gen": "seeded"}] * count
